@@ -111,6 +111,24 @@ CHECKS = {
         "Differential: no expected value is hand-written; small tables (k<=3).",
         "DESIGN.md §3 C06",
     ),
+    "C12": (
+        "E1-space",
+        "bounded-exhaustive search over 3-class datasets; differential oracle against independently fitted BinaryCarvers",
+        "Every 3-class dataset over Sigma_m (k<=3, thorough 4) x kinds x class-label encodings whose string order differs from numeric order "
+        "x configurations (incl. explicit min_freq_mod) x missing cell x dev sample: MulticlassCarver's kept columns and outputs must equal, "
+        "class by class, a BinaryCarver with the same parameters fitted on the indicator; the raw column must come back unchanged.",
+        "Differential; relies on BinaryCarver itself being checked by C01/C02.",
+        "DESIGN.md §3 C12",
+    ),
+    "C18": (
+        "E1-space",
+        "bounded-exhaustive search over hierarchies x leaf count vectors; reference model RefChained",
+        "For 4-5 hierarchy shapes (2-3 levels, uneven fan-out) and every leaf count vector over a small alphabet, x missing rows x min_freq "
+        "x unknown value x unknown_handling: the fitted groups must equal the bottom-up reference model (exact rationals), merged values "
+        "must sit in an ancestor, known values stay present, unknown values are rejected or merged with missing, transform outputs leaders.",
+        "Frequencies exactly on a non-dyadic threshold are DONT_CARE; features dropped because nothing reaches min_freq are outside the statement.",
+        "DESIGN.md §3 C18",
+    ),
 }
 
 NOT_BUILT = "check not built yet (work in progress, see DESIGN.md §7 for the order)"
